@@ -4,10 +4,13 @@
      validation.contentType (untyped / reflective path) -> gate_untyped
      Context.BindValidRequest (generated servers)       -> gate_typed
      defaultRouteBuilder.AddRoute (consumes + API default) -> add_route_consumes
-   mime.ParseMediaType is an oracle: `parse` is what runtime.ContentType answers for the request's header
-   (media type in lower case without parameters, the default application/octet-stream when the header is
-   absent; None = parse error) and `reparse` is what ParseMediaType answers when validateContentType parses
-   that media type again. Statuses are the codes of the collected errors, in order; the first one is served. *)
+     runtime.ContentType (headers.go)                   -> content_type_input, content_type
+     API.ConsumersFor(normalizeOffers(consumes))        -> route_consumers
+   mime.ParseMediaType is an oracle: `parse` is what mime.ParseMediaType answers for the value runtime.ContentType
+   hands to it, i.e. the first Content-Type header line as it stands, or the default application/octet-stream when
+   that is empty or absent (media type in lower case without parameters; None = parse error) and `reparse` is what
+   ParseMediaType answers when validateContentType parses that media type again. Statuses are the codes of the
+   collected errors, in order; the first one is served. *)
 From V Require Export Bytes.
 
 Definition ci_eqb (a b : bytes) : bool := bytes_eqb (lower a) (lower b).          (* strings.EqualFold, ASCII *)
@@ -101,3 +104,19 @@ Definition add_route_consumes (declared : list bytes) (default : bytes) : list b
   | [] => declared
   | _ => if contains_ci declared default then declared else declared ++ [default]
   end.
+
+(* API.ConsumersFor(normalizeOffers(consumes)): the route's consumer table has one key per entry of the consumes
+   list, cut at its first semicolon, for which a consumer is registered on the API (registered = those media types) *)
+Definition route_consumers (consumes registered : list bytes) : list bytes :=
+  filter (fun k => existsb (bytes_eqb k) registered) (map strip_params consumes).
+
+(* runtime.ContentType: Header.Get answers the first Content-Type line (empty when there is none); an empty value
+   stands for DefaultMime; the value is handed to mime.ParseMediaType unchanged *)
+Definition default_mime : bytes :=       (* application/octet-stream *)
+  [97;112;112;108;105;99;97;116;105;111;110;47;111;99;116;101;116;45;115;116;114;101;97;109].
+Definition header_get (lines : list bytes) : bytes := match lines with [] => [] | v :: _ => v end.
+Definition content_type_input (lines : list bytes) : bytes :=
+  match header_get lines with [] => default_mime | _ => header_get lines end.
+(* pmt = mime.ParseMediaType (media type of the answer, None on error) *)
+Definition content_type (pmt : bytes -> option bytes) (lines : list bytes) : option bytes :=
+  pmt (content_type_input lines).
